@@ -355,13 +355,24 @@ def round_trip(chk, td, fd, scaling: str, ts_features: List[str], train_features
         return AbsObj({"HourlyModel"}, settings=kw["settings"], _temporal_cluster_cols=list(cluster_cols), _feature_scaler=AbsObj({"Scaler"}),
                       _y_scaler=AbsObj({"Scaler"}), _model=AbsObj({"ElasticNet"}))
     it2 = Interp(step_limit=100_000)
+
+    def _clone(x):
+        if isinstance(x, dict):
+            return {k_: _clone(v_) for k_, v_ in x.items()}
+        if isinstance(x, list):
+            return [_clone(v_) for v_ in x]
+        return x
+    doc_in = _clone(doc)    # the reader works on its own copy; changing the caller's document is judged separately
     try:
-        back = Function(fd.node, ModuleEnv(chk.repo, fd.module, it2, stand_ins(fd.module)), it2)(StubCall(make_model), doc)
+        back = Function(fd.node, ModuleEnv(chk.repo, fd.module, it2, stand_ins(fd.module)), it2)(StubCall(make_model), doc_in)
     except InterpRaised as e:
         return {"raises": f"from_dict raises {e.exc_name} on the document to_dict wrote"}
     if not isinstance(back, AbsObj):
         return {"raises": "from_dict does not return the model it built"}
     diffs = {}
+    if _val_key(doc_in) != _val_key(doc):
+        ch = [k_ for k_ in sorted(set(doc) | set(doc_in), key=str) if _val_key(doc.get(k_)) != _val_key(doc_in.get(k_))]
+        diffs["<document>"] = (f"as written ({ch})", "modified by from_dict: loading the same parsed document twice gives different models")
     if _val_key(_dump(doc.get("settings"))) != _val_key(json_pass(_dump(settings)) if through_json else _dump(settings)):
         diffs["settings"] = (_val_key(_dump(settings)), _val_key(doc.get("settings")))
     bs = back.__dict__.get("settings")
